@@ -1,1 +1,347 @@
-(* placeholder: to be written *)
+(** Executable model of energy-integration/governance-v2.
+
+    Mirrors, function by function and guard by guard:
+      governance-v2/src/lib.rs               (init, propose, vote, cancel, withdrawDeposit, refund_proposal_fee)
+      governance-v2/src/views.rs             (getProposalStatus, vote_reached, vote_down_with_veto, quorum_reached,
+                                              is_valid_proposal_id, proposal_exists)
+      governance-v2/src/proposal.rs          (GovernanceProposal record, status enum)
+      governance-v2/src/proposal_storage.rs  (ProposalVotes, clear_proposal, userVotedProposals)
+      governance-v2/src/configurable.rs      (try_change_* guards, smoothing_function = BigUint::sqrt)
+    plus the two pieces of environment the contract reads:
+      energy-factory-mock  (setUserEnergy; energy read through energy_query::get_energy_amount)
+      fees-collector       (getLastGlobalUpdateWeek / getTotalEnergyForWeek, moved by a user's
+                            claimRewards: total := total - energy last seen for the user + current energy;
+                            epoch held constant and no locked tokens, so nothing depletes).
+    No proofs in this file: the model must keep running when a proof breaks. *)
+From MX Require Import Base.Prelude Gen.Params.
+
+(** Account ids: 0 = the governance contract itself; OWNER = deployer; SC_CALLER = a caller whose
+    address is a smart-contract address; everything else is a plain user account. *)
+Definition SELF : Z := 0.
+Definition OWNER : Z := 100.
+Definition SC_CALLER : Z := 50.
+
+(** Payment token codes of [propose]: 0 = no payment attached, 1 = the fee token, >= 2 = another ESDT. *)
+Definition NO_PAY : Z := 0.
+Definition FEE_TOK : Z := 1.
+
+Definition FULL : Z := GOV_FULL_PERCENTAGE.
+
+(** GovernanceProposal (+ the ProposalVotes entry stored under the same id).
+    [pr_live = false] after [clear_proposal] (VecMapper::clear_entry: the slot stays, the item is empty). *)
+Record proposal := mkProp {
+  pr_live : bool;
+  pr_proposer : Z;
+  pr_fee : Z;                                   (* fee_payment.amount (token = the fee token, nonce 0) *)
+  pr_minq : Z; pr_delay : Z; pr_period : Z; pr_wpct : Z;   (* snapshots taken by propose *)
+  pr_total : Z;                                 (* total_quorum: collector's total energy, taken at the first vote *)
+  pr_start : Z;                                 (* proposal_start_block *)
+  pr_withdrawn : bool;                          (* fee_withdrawn *)
+  pr_up : Z; pr_down : Z; pr_veto : Z; pr_abstain : Z; pr_quorum : Z
+}.
+
+Definition pr_set_total (p : proposal) (t : Z) : proposal :=
+  mkProp (pr_live p) (pr_proposer p) (pr_fee p) (pr_minq p) (pr_delay p) (pr_period p) (pr_wpct p)
+         t (pr_start p) (pr_withdrawn p) (pr_up p) (pr_down p) (pr_veto p) (pr_abstain p) (pr_quorum p).
+Definition pr_set_votes (p : proposal) (u d v a q : Z) : proposal :=
+  mkProp (pr_live p) (pr_proposer p) (pr_fee p) (pr_minq p) (pr_delay p) (pr_period p) (pr_wpct p)
+         (pr_total p) (pr_start p) (pr_withdrawn p) u d v a q.
+Definition pr_set_withdrawn (p : proposal) : proposal :=
+  mkProp (pr_live p) (pr_proposer p) (pr_fee p) (pr_minq p) (pr_delay p) (pr_period p) (pr_wpct p)
+         (pr_total p) (pr_start p) true (pr_up p) (pr_down p) (pr_veto p) (pr_abstain p) (pr_quorum p).
+(** clear_entry + proposal_votes.clear: everything decodes to the default again *)
+Definition pr_cleared : proposal := mkProp false 0 0 0 0 0 0 0 0 false 0 0 0 0 0.
+
+Record gov := mkGov {
+  g_block : Z;                       (* current block nonce *)
+  g_props : list proposal;           (* proposals(): position i holds id i+1 *)
+  g_voted : list (Z * Z);            (* userVotedProposals: (voter, proposal id) in insertion order *)
+  g_min_energy : Z; g_min_fee : Z; g_quorum : Z; g_delay : Z; g_period : Z; g_wpct : Z;
+  g_energy : list (Z * Z);           (* energy factory: user -> energy amount *)
+  g_synced : list (Z * Z);           (* fees collector: user -> energy it last saw for the user *)
+  g_total : Z;                       (* fees collector: total energy of the last global update week *)
+  g_bal : list (Z * Z);              (* fee-token balances by account id (SELF included) *)
+  g_burned : Z                       (* fee tokens burned so far *)
+}.
+
+Definition set_block (g : gov) (b : Z) : gov :=
+  mkGov b (g_props g) (g_voted g) (g_min_energy g) (g_min_fee g) (g_quorum g) (g_delay g) (g_period g)
+        (g_wpct g) (g_energy g) (g_synced g) (g_total g) (g_bal g) (g_burned g).
+Definition set_props (g : gov) (l : list proposal) : gov :=
+  mkGov (g_block g) l (g_voted g) (g_min_energy g) (g_min_fee g) (g_quorum g) (g_delay g) (g_period g)
+        (g_wpct g) (g_energy g) (g_synced g) (g_total g) (g_bal g) (g_burned g).
+Definition set_voted (g : gov) (l : list (Z * Z)) : gov :=
+  mkGov (g_block g) (g_props g) l (g_min_energy g) (g_min_fee g) (g_quorum g) (g_delay g) (g_period g)
+        (g_wpct g) (g_energy g) (g_synced g) (g_total g) (g_bal g) (g_burned g).
+Definition set_cfg (g : gov) (me mf q d p w : Z) : gov :=
+  mkGov (g_block g) (g_props g) (g_voted g) me mf q d p w
+        (g_energy g) (g_synced g) (g_total g) (g_bal g) (g_burned g).
+Definition set_env (g : gov) (en sy : list (Z * Z)) (t : Z) : gov :=
+  mkGov (g_block g) (g_props g) (g_voted g) (g_min_energy g) (g_min_fee g) (g_quorum g) (g_delay g) (g_period g)
+        (g_wpct g) en sy t (g_bal g) (g_burned g).
+Definition set_ledger (g : gov) (b : list (Z * Z)) (burned : Z) : gov :=
+  mkGov (g_block g) (g_props g) (g_voted g) (g_min_energy g) (g_min_fee g) (g_quorum g) (g_delay g) (g_period g)
+        (g_wpct g) (g_energy g) (g_synced g) (g_total g) b burned.
+
+Definition init_gov (me mf q d p w blk : Z) (bals : list (Z * Z)) : gov :=
+  mkGov blk [] [] me mf q d p w [] [] 0 bals 0.
+
+(** ------------------------------------------------------------------ ledger of the fee token *)
+Definition bal (g : gov) (a : Z) : Z := aget (g_bal g) a.
+
+(** ESDT transfer: the VM aborts when the sender's balance is insufficient *)
+Definition xfer (g : gov) (src dst amt : Z) : result gov :=
+  do b <- sub_chk (bal g src) amt;
+  let l1 := aset (g_bal g) src b in
+  Ok (set_ledger g (aset l1 dst (aget l1 dst + amt)) (g_burned g)).
+
+(** esdt_local_burn from the contract's own balance *)
+Definition burn (g : gov) (amt : Z) : result gov :=
+  do b <- sub_chk (bal g SELF) amt;
+  Ok (set_ledger g (aset (g_bal g) SELF b) (g_burned g + amt)).
+
+(** ------------------------------------------------------------------ proposals() access *)
+Definition nprops (g : gov) : Z := Z.of_nat (length (g_props g)).
+
+(** views.rs: is_valid_proposal_id *)
+Definition valid_id (g : gov) (id : Z) : bool := (1 <=? id) && (id <=? nprops g).
+
+Definition get_prop (g : gov) (id : Z) : option proposal :=
+  if valid_id g id then nth_error (g_props g) (Z.to_nat (id - 1)) else None.
+
+Fixpoint upd {A} (l : list A) (n : nat) (x : A) : list A :=
+  match l, n with
+  | [], _ => []
+  | _ :: t, O => x :: t
+  | h :: t, S n' => h :: upd t n' x
+  end.
+
+Definition put_prop (g : gov) (id : Z) (p : proposal) : gov :=
+  set_props g (upd (g_props g) (Z.to_nat (id - 1)) p).
+
+(** ------------------------------------------------------------------ views.rs: status *)
+Definition vote_total (p : proposal) : Z := pr_up p + pr_down p + pr_veto p + pr_abstain p.
+
+Definition vote_down_with_veto (p : proposal) : bool := vote_total p / 3 <? pr_veto p.
+
+Definition vote_reached (p : proposal) : bool :=
+  let third := vote_total p / 3 in
+  let half := vote_total p / 2 in
+  if third <? pr_veto p then false else half <? pr_up p.
+
+Definition quorum_reached (p : proposal) : bool := pr_minq p * pr_total p <=? pr_quorum p * FULL.
+
+Definition status_of (blk : Z) (p : proposal) : Z :=
+  let voting_start := pr_start p + pr_delay p in
+  let voting_end := voting_start + pr_period p in
+  if blk <? voting_start then GOV_STATUS_Pending
+  else if (voting_start <=? blk) && (blk <? voting_end) then GOV_STATUS_Active
+  else if quorum_reached p && vote_reached p then GOV_STATUS_Succeeded
+  else if vote_down_with_veto p then GOV_STATUS_DefeatedWithVeto
+  else GOV_STATUS_Defeated.
+
+(** getProposalStatus: None when the id is out of range or the entry was cleared *)
+Definition view_status (g : gov) (id : Z) : Z :=
+  match get_prop g id with
+  | Some p => if pr_live p then status_of (g_block g) p else GOV_STATUS_None
+  | None => GOV_STATUS_None
+  end.
+
+(** getProposalVotes: [up; down; veto; abstain; quorum]; the view fails ([]) for a missing entry *)
+Definition view_votes (g : gov) (id : Z) : list Z :=
+  match get_prop g id with
+  | Some p => if pr_live p then [pr_up p; pr_down p; pr_veto p; pr_abstain p; pr_quorum p] else []
+  | None => []
+  end.
+
+(** getUserVotedProposals *)
+Definition view_voted (g : gov) (u : Z) : list Z :=
+  map snd (filter (fun kv => fst kv =? u) (g_voted g)).
+
+Definition pair_eqb (x y : Z * Z) : bool := (fst x =? fst y) && (snd x =? snd y).
+Definition has_voted (g : gov) (u id : Z) : bool := existsb (pair_eqb (u, id)) (g_voted g).
+
+(** configurable.rs: smoothing_function = BigUint::sqrt (floor square root) *)
+Definition isqrt (x : Z) : Z := Z.sqrt x.
+
+Definition energy_of (g : gov) (u : Z) : Z := aget (g_energy g) u.
+
+(** ------------------------------------------------------------------ operations *)
+Inductive gop :=
+| Propose (c tok amt nact gas : Z)       (* nact actions, each with gas limit [gas] *)
+| Vote (c id kind : Z)
+| Cancel (c id : Z)
+| Withdraw (c id : Z)
+| Block (d : Z)                          (* the chain advances by d blocks *)
+| SetEnergy (u e : Z)                    (* energy factory: the user's energy becomes e *)
+| Sync (u : Z)                           (* the user calls claimRewards on the fees collector *)
+| Donate (c amt : Z)                     (* plain transfer of the fee token to the contract *)
+| ChangeMinEnergy (c v : Z)
+| ChangeMinFee (c v : Z)
+| ChangeQuorum (c v : Z)
+| ChangeWithdrawPct (c v : Z)
+| ChangeDelay (c v : Z)
+| ChangePeriod (c v : Z).
+
+Definition outs := list Z.
+
+Definition is_sc (c : Z) : bool := (c =? SC_CALLER) || (c =? SELF).
+
+(** configurable.rs guards *)
+Definition ok_min_fee (v : Z) : bool :=
+  (GOV_MIN_MIN_FEE_FOR_PROPOSE * GOV_DECIMALS_CONST <? v) && (v <? GOV_MAX_MIN_FEE_FOR_PROPOSE * GOV_DECIMALS_CONST).
+Definition ok_quorum (v : Z) : bool := (GOV_MIN_QUORUM <=? v) && (v <? GOV_MAX_QUORUM).
+Definition ok_delay (v : Z) : bool := (GOV_MIN_VOTING_DELAY <=? v) && (v <? GOV_MAX_VOTING_DELAY).
+Definition ok_period (v : Z) : bool := (GOV_MIN_VOTING_PERIOD <=? v) && (v <? GOV_MAX_VOTING_PERIOD).
+Definition ok_wpct (v : Z) : bool := (0 <=? v) && (v <=? FULL).
+
+Definition ep_propose (g : gov) (c tok amt nact gas : Z) : result (gov * outs) :=
+  check (0 <=? amt) && (0 <=? nact) && (0 <=? gas) else EGuard;
+  check negb (is_sc c) else EGuard;
+  check (nact <=? GOV_MAX_PROPOSAL_ACTIONS) else EGuard;
+  check (g_min_energy g <=? energy_of g c) else EGuard;
+  check negb (tok =? NO_PAY) else EGuard;                         (* call_value().single_esdt() *)
+  check (tok =? FEE_TOK) else EGuard;
+  check (g_min_fee g =? amt) else EGuard;
+  check (nact =? 0) || (gas <? GOV_MAX_GAS_LIMIT_PER_BLOCK) else EGuard;
+  check (nact * gas <? GOV_MAX_GAS_LIMIT_PER_BLOCK) else EGuard;
+  do g1 <- xfer g c SELF amt;                                      (* the payment arrives with the call *)
+  let p := mkProp true c amt (g_quorum g) (g_delay g) (g_period g) (g_wpct g) 0 (g_block g) false
+                  0 0 0 0 0 in
+  let g2 := set_props g1 (g_props g1 ++ [p]) in
+  Ok (g2, [nprops g2]).
+
+Definition add_vote (p : proposal) (kind w e : Z) : proposal :=
+  if kind =? GOV_VOTE_UpVote then
+    pr_set_votes p (pr_up p + w) (pr_down p) (pr_veto p) (pr_abstain p) (pr_quorum p + e)
+  else if kind =? GOV_VOTE_DownVote then
+    pr_set_votes p (pr_up p) (pr_down p + w) (pr_veto p) (pr_abstain p) (pr_quorum p + e)
+  else if kind =? GOV_VOTE_DownVetoVote then
+    pr_set_votes p (pr_up p) (pr_down p) (pr_veto p + w) (pr_abstain p) (pr_quorum p + e)
+  else
+    pr_set_votes p (pr_up p) (pr_down p) (pr_veto p) (pr_abstain p + w) (pr_quorum p + e).
+
+Definition ep_vote (g : gov) (c id kind : Z) : result (gov * outs) :=
+  check (0 <=? kind) && (kind <? GOV_VOTE_COUNT) else EGuard;      (* argument decoding *)
+  check valid_id g id else EGuard;
+  check (view_status g id =? GOV_STATUS_Active) else EState;
+  check negb (has_voted g c id) else EGuard;                       (* user_voted_proposals.insert *)
+  match get_prop g id with
+  | None => Err EGuard
+  | Some p =>
+      (* first voter: snapshot the collector's total energy *)
+      let p1 := if pr_quorum p =? 0 then pr_set_total p (g_total g) else p in
+      let e := energy_of g c in
+      check (0 <? e) else EGuard;                                  (* get_energy_amount_non_zero *)
+      let w := isqrt e in
+      let p2 := add_vote p1 kind w e in
+      Ok (put_prop (set_voted g (g_voted g ++ [(c, id)])) id p2, [])
+  end.
+
+Definition ep_cancel (g : gov) (c id : Z) : result (gov * outs) :=
+  let st := view_status g id in
+  if st =? GOV_STATUS_None then Err EGuard
+  else if st =? GOV_STATUS_Pending then
+    match get_prop g id with
+    | None => Err EGuard
+    | Some p =>
+        check (c =? pr_proposer p) else EPerm;
+        do g1 <- xfer g SELF (pr_proposer p) (pr_fee p);
+        Ok (put_prop g1 id pr_cleared, [])
+    end
+  else Err EState.
+
+Definition ep_withdraw (g : gov) (c id : Z) : result (gov * outs) :=
+  let st := view_status g id in
+  if st =? GOV_STATUS_None then Err EGuard
+  else if (st =? GOV_STATUS_Succeeded) || (st =? GOV_STATUS_Defeated) then
+    match get_prop g id with
+    | None => Err EGuard
+    | Some p =>
+        check (c =? pr_proposer p) else EPerm;
+        check negb (pr_withdrawn p) else EState;
+        do g1 <- xfer g SELF (pr_proposer p) (pr_fee p);
+        Ok (put_prop g1 id (pr_set_withdrawn p), [])
+    end
+  else if st =? GOV_STATUS_DefeatedWithVeto then
+    match get_prop g id with
+    | None => Err EGuard
+    | Some p =>
+        check negb (pr_withdrawn p) else EState;
+        let refund := pr_wpct p * pr_fee p / FULL in
+        do remaining <- sub_chk (pr_fee p) refund;
+        do g1 <- burn g remaining;
+        do g2 <- xfer g1 SELF (pr_proposer p) refund;
+        Ok (put_prop g2 id (pr_set_withdrawn p), [])
+    end
+  else Err EState.
+
+Definition ep_block (g : gov) (d : Z) : result (gov * outs) :=
+  check (0 <=? d) else EGuard;
+  Ok (set_block g (g_block g + d), []).
+
+Definition ep_set_energy (g : gov) (u e : Z) : result (gov * outs) :=
+  check (0 <=? e) else EGuard;
+  Ok (set_env g (aset (g_energy g) u e) (g_synced g) (g_total g), []).
+
+(** fees collector claimRewards of a user: update_user_energy_for_current_week *)
+Definition ep_sync (g : gov) (u : Z) : result (gov * outs) :=
+  do t <- sub_chk (g_total g) (aget (g_synced g) u);
+  let e := energy_of g u in
+  Ok (set_env g (g_energy g) (aset (g_synced g) u e) (t + e), []).
+
+Definition ep_donate (g : gov) (c amt : Z) : result (gov * outs) :=
+  check (0 <? amt) && negb (c =? SELF) else EGuard;
+  do g1 <- xfer g c SELF amt;
+  Ok (g1, []).
+
+Definition only_owner (c : Z) : bool := c =? OWNER.
+
+Definition ep_change_min_energy (g : gov) (c v : Z) : result (gov * outs) :=
+  check only_owner c else EPerm;
+  check (0 <=? v) else EGuard;
+  Ok (set_cfg g v (g_min_fee g) (g_quorum g) (g_delay g) (g_period g) (g_wpct g), []).
+Definition ep_change_min_fee (g : gov) (c v : Z) : result (gov * outs) :=
+  check only_owner c else EPerm;
+  check ok_min_fee v else EGuard;
+  Ok (set_cfg g (g_min_energy g) v (g_quorum g) (g_delay g) (g_period g) (g_wpct g), []).
+Definition ep_change_quorum (g : gov) (c v : Z) : result (gov * outs) :=
+  check only_owner c else EPerm;
+  check ok_quorum v else EGuard;
+  Ok (set_cfg g (g_min_energy g) (g_min_fee g) v (g_delay g) (g_period g) (g_wpct g), []).
+Definition ep_change_wpct (g : gov) (c v : Z) : result (gov * outs) :=
+  check only_owner c else EPerm;
+  check ok_wpct v else EGuard;
+  Ok (set_cfg g (g_min_energy g) (g_min_fee g) (g_quorum g) (g_delay g) (g_period g) v, []).
+Definition ep_change_delay (g : gov) (c v : Z) : result (gov * outs) :=
+  check only_owner c else EPerm;
+  check ok_delay v else EGuard;
+  Ok (set_cfg g (g_min_energy g) (g_min_fee g) (g_quorum g) v (g_period g) (g_wpct g), []).
+Definition ep_change_period (g : gov) (c v : Z) : result (gov * outs) :=
+  check only_owner c else EPerm;
+  check ok_period v else EGuard;
+  Ok (set_cfg g (g_min_energy g) (g_min_fee g) (g_quorum g) (g_delay g) v (g_wpct g), []).
+
+Definition step (g : gov) (op : gop) : result (gov * outs) :=
+  match op with
+  | Propose c tok amt nact gas => ep_propose g c tok amt nact gas
+  | Vote c id kind => ep_vote g c id kind
+  | Cancel c id => ep_cancel g c id
+  | Withdraw c id => ep_withdraw g c id
+  | Block d => ep_block g d
+  | SetEnergy u e => ep_set_energy g u e
+  | Sync u => ep_sync g u
+  | Donate c amt => ep_donate g c amt
+  | ChangeMinEnergy c v => ep_change_min_energy g c v
+  | ChangeMinFee c v => ep_change_min_fee g c v
+  | ChangeQuorum c v => ep_change_quorum g c v
+  | ChangeWithdrawPct c v => ep_change_wpct g c v
+  | ChangeDelay c v => ep_change_delay g c v
+  | ChangePeriod c v => ep_change_period g c v
+  end.
+
+(** A failed transaction reverts: the runner keeps the old state. *)
+Definition step_total (g : gov) (op : gop) : gov :=
+  match step g op with Ok (g', _) => g' | Err _ => g end.
+
+Definition run (g : gov) (ops : list gop) : gov := fold_left step_total ops g.
